@@ -23,6 +23,32 @@ See the included GPLv3 LICENSE file
 namespace nifly {
 constexpr auto NIF_NPOS = static_cast<uint32_t>(-1);
 
+#ifdef NIFLY_VERIF_HOOKS
+// Verification hooks: no-ops unless a callback is installed (only compiled with -DNIFLY_VERIF_HOOKS).
+// mode: 0 = reading, 1 = writing.
+struct NiVerifHooks {
+	// every primitive stream transfer; on reads it runs after the read and may overwrite the buffer
+	void (*onTransfer)(int mode, char* ptr, std::streamsize count) = nullptr;
+	// typed transfer (Sync<T>, operator>>): kind 0 = other, 1 = bool, 2 = integral, 3 = enum, 4 = floating point
+	void (*onTyped)(int mode, void* ptr, size_t size, int kind) = nullptr;
+	// a block reference / string reference passing through Sync
+	void (*onRef)(int mode, void* ref) = nullptr;
+	void (*onStringRef)(int mode, void* ref) = nullptr;
+};
+inline NiVerifHooks& niVerifHooks() {
+	static NiVerifHooks hooks;
+	return hooks;
+}
+template<typename T>
+constexpr int niVerifKind() {
+	return std::is_same<T, bool>::value ? 1
+		   : std::is_integral<T>::value ? 2
+		   : std::is_enum<T>::value ? 3
+		   : std::is_floating_point<T>::value ? 4
+		   : 0;
+}
+#endif
+
 constexpr auto NiCharMin = std::numeric_limits<char>::min();
 constexpr auto NiCharMax = std::numeric_limits<char>::max();
 constexpr auto NiByteMin = std::numeric_limits<uint8_t>::min();
@@ -222,14 +248,36 @@ public:
 		: NiStreamBase(hdr)
 		, stream(s) {}
 
+#ifndef NIFLY_VERIF_HOOKS
 	void read(char* ptr, std::streamsize count) { stream->read(ptr, count); }
 	void getline(char* ptr, std::streamsize maxCount) { stream->getline(ptr, maxCount); }
 	void getstring(std::string& str) { std::getline(*stream, str, '\0'); }
+#else
+	void read(char* ptr, std::streamsize count) {
+		stream->read(ptr, count);
+		if (niVerifHooks().onTransfer)
+			niVerifHooks().onTransfer(0, ptr, count);
+	}
+	void getline(char* ptr, std::streamsize maxCount) {
+		stream->getline(ptr, maxCount);
+		if (niVerifHooks().onTransfer)
+			niVerifHooks().onTransfer(0, ptr, stream->gcount());
+	}
+	void getstring(std::string& str) {
+		std::getline(*stream, str, '\0');
+		if (niVerifHooks().onTransfer)
+			niVerifHooks().onTransfer(0, nullptr, static_cast<std::streamsize>(str.size()) + 1);
+	}
+#endif
 
 	// Be careful with sizes of structs and classes
 	template<typename T>
 	NiIStream& operator>>(T& t) {
 		read((char*) &t, sizeof(T));
+#ifdef NIFLY_VERIF_HOOKS
+		if (niVerifHooks().onTyped)
+			niVerifHooks().onTyped(0, &t, sizeof(T), niVerifKind<T>());
+#endif
 		return *this;
 	}
 };
@@ -245,11 +293,19 @@ public:
 		, stream(s) {}
 
 	void write(const char* ptr, std::streamsize count) {
+#ifdef NIFLY_VERIF_HOOKS
+		if (niVerifHooks().onTransfer)
+			niVerifHooks().onTransfer(1, const_cast<char*>(ptr), count);
+#endif
 		stream->write(ptr, count);
 		blockSize += count;
 	}
 
 	void writeline(const char* ptr, std::streamsize count) {
+#ifdef NIFLY_VERIF_HOOKS
+		if (niVerifHooks().onTransfer)
+			niVerifHooks().onTransfer(1, const_cast<char*>(ptr), count + 1);
+#endif
 		stream->write(ptr, count);
 		stream->write("\n", 1);
 		blockSize += count + 1;
@@ -257,6 +313,10 @@ public:
 
 	void writestring(const std::string& str) {
 		auto count = static_cast<std::streamsize>(str.size());
+#ifdef NIFLY_VERIF_HOOKS
+		if (niVerifHooks().onTransfer)
+			niVerifHooks().onTransfer(1, nullptr, count + 1);
+#endif
 		stream->write(str.data(), count);
 		stream->write("\0", 1);
 		blockSize += count + 1;
@@ -290,6 +350,10 @@ public:
 	template<typename T>
 	void Sync(T& t) {
 		Sync(reinterpret_cast<char*>(&t), sizeof(T));
+#ifdef NIFLY_VERIF_HOOKS
+		if (niVerifHooks().onTyped)
+			niVerifHooks().onTyped(mode == Mode::Reading ? 0 : 1, &t, sizeof(T), niVerifKind<T>());
+#endif
 	}
 
 	NiVersion& GetVersion() {
@@ -510,6 +574,10 @@ public:
 	void Write(NiOStream& stream);
 
 	void Sync(NiStreamReversible& stream) {
+#ifdef NIFLY_VERIF_HOOKS
+		if (niVerifHooks().onStringRef)
+			niVerifHooks().onStringRef(stream.asRead() ? 0 : 1, this);
+#endif
 		if (auto istream = stream.asRead())
 			Read(*istream);
 		else if (auto ostream = stream.asWrite())
@@ -772,7 +840,15 @@ public:
 	NiBlockRef() {}
 	NiBlockRef(const uint32_t id) { NiRef::index = id; }
 
+#ifndef NIFLY_VERIF_HOOKS
 	void Sync(NiStreamReversible& stream) { stream.Sync(base::index); }
+#else
+	void Sync(NiStreamReversible& stream) {
+		if (niVerifHooks().onRef)
+			niVerifHooks().onRef(stream.GetMode() == NiStreamReversible::Mode::Reading ? 0 : 1, static_cast<NiRef*>(this));
+		stream.Sync(base::index);
+	}
+#endif
 };
 
 template<typename T>
